@@ -85,4 +85,21 @@ theorem refines_ValidatorSet : Refines (SrcBlk.ValidatorSet false) validatorSet 
     hashmapK refines_ValidatorDescr 16, dictK refines_ValidatorDescr 16]
   all_goals simp_all [vle_one_nat, vle_nat_isNat]
 
+/-! ### augmented dictionaries (`load_hashmap_aug_e`) -/
+
+theorem refines_ShardAccounts : RefinesP PV (SrcBlk.ShardAccounts false) shardAccounts view_ShardAccounts := by
+  tx_refine [shardAccounts, SrcBlk.ShardAccounts, view_ShardAccounts,
+    augKV (x := SrcBlk.ShardAccount false) (y := SrcBlk.DepthBalanceInfo false) refines_ShardAccount.toE refines_DepthBalanceInfo 256]
+
+theorem refines_OldMcBlocksInfo : Refines (SrcBlk.OldMcBlocksInfo false) oldMcBlocksInfo view_OldMcBlocksInfo := by
+  apply RefinesP.toRefines
+  tx_refine [oldMcBlocksInfo, SrcBlk.OldMcBlocksInfo, view_OldMcBlocksInfo,
+    augK (x := Src.KeyExtBlkRef false) (y := Src.KeyMaxLt false) refines_KeyExtBlkRef refines_KeyMaxLt 32]
+
+theorem refines_BlockCreateStats : Refines (SrcBlk.BlockCreateStats false) blockCreateStats view_BlockCreateStats := by
+  apply RefinesP.toRefines
+  tx_refine [blockCreateStats, blockCreateStatsAlts, SrcBlk.BlockCreateStats, view_BlockCreateStats,
+    dictK refines_CreatorStats 256,
+    augK (x := Src.CreatorStats false) (y := Rd.loadUint 32) refines_CreatorStats (refines_uint 32 (by decide)) 256]
+
 end TonVerif.Tlb.Blk
